@@ -348,12 +348,12 @@ def run(ctx):
     res = ctx.coq_build("C20/Props.v")
 
     cases, metas = [], []
-    for i in range(ctx.n(500, 6000)):
+    for i in range(ctx.n(800, 6000)):
         frames, script = gen_program(ctx.rng, K)
         obs = run_impl(ctx, frames, script, K, str(i % 50))
         metas.append((frames, script, obs))
         ctx.case({"program": program_text(frames, 0).split("framer post")[0], "script": script, "active": obs},
-                 nontrivial=nontrivial(frames, obs), kind="taken=%d" % (len(set(obs)) - 1 if isinstance(obs, list) else -1))
+                 nontrivial=nontrivial(frames, obs), kind="frames visited=%d" % (len(set(obs)) if isinstance(obs, list) else 0))
         enc_obs = [len(obs)] + obs if isinstance(obs, list) else [1, 99]
         cases.append(("(chk %s)" % zlist(e_prog(frames) + e_script(script) + enc_obs), "true"))
     bad = ctx.coq_cases(HEADER, "Bool.eqb", cases)
